@@ -1095,19 +1095,11 @@ inline void DnsMessage::validateRdataSecurity(const DnsResourceRecord &rr)
     }
   }
 
-  // Validate other record types that should never contain compression pointers in RDATA
-  if (rr.type == DnsType::TXT || rr.type == DnsType::AAAA)
-  {
-    for (std::size_t i = 0; i < rr.rdata.size() - 1; ++i)
-    {
-      if ((rr.rdata[i] & constants::DNS_COMPRESSION_MASK) == constants::DNS_COMPRESSION_MASK)
-      {
-        throw DnsParseException("Malicious compression pointer detected in " +
-                                std::to_string(static_cast<std::uint16_t>(rr.type)) +
-                                " record RDATA at offset " + std::to_string(i));
-      }
-    }
-  }
+  // TXT and AAAA RDATA are opaque octets (character strings / a 128-bit address): every octet
+  // value, including those >= 0xC0, is legal there and nothing in them is ever followed as a
+  // compression pointer, so there is nothing to validate. (Scanning them for 0xC0 octets rejected
+  // most real IPv6 addresses - fe80::/10, fd00::/8, 2607:f8b0:... - and any non-ASCII or >= 192
+  // octet long TXT string, and read past an empty RDATA because size() - 1 wrapped around.)
 
   // Additional validation for other record types that shouldn't have compression pointers
   // in specific parts of their RDATA could be added here in the future
